@@ -263,17 +263,31 @@ func (a *analyzer) importPackageSymbols(scope *Scope, pkgName, currentPkg string
 		if scope.LookupLocalVisible(ext.Name, currentPkg) != nil {
 			continue
 		}
-		sym := &Symbol{
-			Name:      ext.Name,
-			Package:   ext.Package,
-			Kind:      ext.Kind,
-			Source:    ext.Source,
-			Signature: ext.Signature,
-			DocString: ext.DocString,
-			Exported:  true,
-			External:  true,
+		scope.DefineImported(importedSymbol(scope, ext), currentPkg)
+	}
+}
+
+// importedSymbol returns the symbol an import of ext makes visible.  When the
+// exporting package is defined in the file being analyzed the import IS that
+// definition: handing out an external stand-in instead would replace the
+// definition's package-qualified entry in the scope, so a later (export ...)
+// would mark the stand-in and references from the importing package would
+// resolve to a symbol that is not the one the file defines.
+func importedSymbol(scope *Scope, ext ExternalSymbol) *Symbol {
+	if ext.Package != "" {
+		if local, ok := scope.PackageSymbols[ext.Package+":"+ext.Name]; ok && local != nil && !local.External {
+			return local
 		}
-		scope.DefineImported(sym, currentPkg)
+	}
+	return &Symbol{
+		Name:      ext.Name,
+		Package:   ext.Package,
+		Kind:      ext.Kind,
+		Source:    ext.Source,
+		Signature: ext.Signature,
+		DocString: ext.DocString,
+		Exported:  true,
+		External:  true,
 	}
 }
 
@@ -301,17 +315,7 @@ func (a *analyzer) prescanInPackage(expr *lisp.LVal, scope *Scope) {
 			if scope.LookupLocalVisible(ext.Name, pkgName) != nil {
 				continue
 			}
-			sym := &Symbol{
-				Name:      ext.Name,
-				Package:   ext.Package,
-				Kind:      ext.Kind,
-				Source:    ext.Source,
-				Signature: ext.Signature,
-				DocString: ext.DocString,
-				Exported:  true,
-				External:  true,
-			}
-			scope.DefineImported(sym, pkgName)
+			scope.DefineImported(importedSymbol(scope, ext), pkgName)
 		}
 	}
 }
